@@ -86,7 +86,9 @@ func extToUnstructured(fr *frame, args []value) value {
 			if m == nil {
 				return tuple{makeMap(types.Typ[types.String], 0), iface{}}
 			}
-			return tuple{i.copyTree(iface{tMapStrAny, m}).v, iface{}}
+			// no copy: the real converter hands back the object's own content,
+			// so writes through the result are writes to the object
+			return tuple{m, iface{}}
 		}
 		elem, p, ok := derefIface(obj)
 		if !ok {
